@@ -57,17 +57,6 @@ class SerdeInterp(PlaceInterp):
         self.facts = ev.facts
 
     # -- impl lookup ---------------------------------------------------------------------------------------------------------
-    def type_of(self, v):
-        v = deref(v)
-        if isinstance(v, tuple) and len(v) == 3 and v[0] == 'struct':
-            return strip_generics(v[1]).split('::<')[0]
-        if isinstance(v, tuple) and len(v) >= 2 and v[0] == 'ctor':
-            p = strip_generics(v[1]).split('::<')[0]
-            if p in self.facts.adts:
-                return p                                             # a unit / tuple struct: the constructor is the type
-            return p.rsplit('::', 1)[0]                             # an enum value: its type is the variant's parent
-        return None
-
     def impl_method(self, trait, v, name):
         ty = self.type_of(v)
         if ty is None:
@@ -226,32 +215,6 @@ class SerdeInterp(PlaceInterp):
                 return recv[2]['text']          # a modelled date-time prints as the text it was read from (C12 decides Display / FromStr)
             return super()._mcall(node, env)
         return super()._mcall(e, env)
-
-    def _from_impl(self, tgt, value, src_ty):
-        """the workspace `impl From<S> for T` that `.into()` resolves to, by target type and the kind of the value"""
-        t = strip_generics(tgt).split('::<')[0]
-        cands = [d for d in self.facts.bodies if d.startswith(f'<{t} as core::convert::From<') and d.endswith('>>::from')]
-        if not cands:
-            return None
-        import re
-        norm = lambda t_: re.sub(r"'[a-z_]+ ", '', (t_ or '')).replace('mut ', '').strip()
-        src = norm(src_ty)
-
-        def arg(d, keep_ref=False):
-            a = norm(d[len(f'<{t} as core::convert::From<'):-len('>>::from')])
-            return a if keep_ref else a.replace('&', '')
-        exact = [d for d in cands if arg(d, True) == src]
-        if len(exact) == 1:
-            return self.facts.body(exact[0])
-        loose = [d for d in cands if arg(d) == src.replace('&', '')]
-        if len(loose) == 1:
-            return self.facts.body(loose[0])
-        v = deref(value)
-        want = 'bool' if isinstance(v, bool) else 'i64' if isinstance(v, int) else 'f64' if isinstance(v, float) else 'str' if isinstance(v, str) else self.type_of(v)
-        byk = [d for d in cands if arg(d) == want or (want == 'str' and arg(d) in ('str', 'alloc::string::String'))]
-        if byk:
-            return self.facts.body(sorted(byk, key=lambda d: arg(d) != want)[0])
-        return None
 
     def val(self, e, env):
         k = e.get('k')
